@@ -41,6 +41,14 @@ def build_cases(tier, rng):
         # degenerate-key forgeries: accept side and reject side of every boundary
         rho = bytes(rng.randrange(256) for _ in range(32))
         fmsg = b'forged'
+        # malformed hint sections of a forged signature whose hint touches coefficient 0 and 255 of every polynomial
+        # (index 0 is where an "is the previous index zero" style shortcut would go wrong)
+        hz = [[1 if j in (0, 255) else 0 for j in range(256)] for _ in range(p['k'])]
+        fpk0, fsig0, ok0 = fam.forge(s, rho, fam.rand_z(rng, p, 1000), hz, fmsg, b'', 'pure')
+        if fsig0 is not None:
+            out.append((f"verify {s} pure bytes:{fpk0.hex()} {hx(fmsg)} - {fsig0.hex()}", 'forgery with hints at coefficients 0 and 255 of every polynomial', ('verify', s, fpk0, fmsg, fsig0, b'', 'pure'), ok0))
+            for tag, sg in fam.hint_section_mutations(rng, p, fsig0):
+                out.append((f"verify {s} pure bytes:{fpk0.hex()} {hx(fmsg)} - {sg.hex()}", 'malformed hint (forged, index 0 present): ' + tag, ('verify', s, fpk0, fmsg, sg, b'', 'pure'), False))
         for tag, z, h in fam.forgery_family(rng, s, n_random=6 if tier == 'thorough' else 1):
             md = rng.choice(('pure', 'sha256', 'internal'))
             fpk, fsig, valid = fam.forge(s, rho, z, h, fmsg, b'c', md)
